@@ -46,17 +46,26 @@ long long c_coord2cell(long long nrows, long long ncols,
     long long nval, double * xycoords, long long * idxcell)
 {
     long long ierr, i, nx, ny;
+    double fx, fy;
     ierr = 0;
 
     for(i=0; i<nval; i++)
     {
-        nx = (long long)((xycoords[2*i]-xll)/csz);
-        ny = nrows-1-(long long)((xycoords[2*i+1]-yll)/csz);
+        /* floor (not truncation toward zero) so that points up to one
+        * cell left of or below the grid are not mapped into it */
+        fx = floor((xycoords[2*i]-xll)/csz);
+        fy = floor((xycoords[2*i+1]-yll)/csz);
 
-        if(nx<0 || nx>=ncols || ny<0 || ny>=nrows)
+        /* range test before the integer conversion: nan or very large
+        * coordinates are outside the grid */
+        if(!(fx>=0 && fx<ncols && fy>=0 && fy<nrows))
             idxcell[i] = -1;
         else
+        {
+            nx = (long long)fx;
+            ny = nrows-1-(long long)fy;
             idxcell[i] = ny*ncols+nx;
+        }
     }
 
     return ierr;
